@@ -112,6 +112,7 @@ func c15Run(cfgIdx int, hist []int) *mc.SeqOut {
 		}
 	}
 	first := old.GetCurrentRevision()
+	failedWrites := 0 // requests of the old leader that consumed a revision without committing anything
 	for _, a := range hist {
 		switch {
 		case a < 6:
@@ -134,9 +135,12 @@ func c15Run(cfgIdx int, hist []int) *mc.SeqOut {
 			}
 			if op.OK {
 				m.apply(kind, key, op.Val, op.Hdr)
+			} else {
+				failedWrites++
 			}
 		case a < 9:
 			n := []int{1, 10, 100}[a-6]
+			failedWrites += n
 			for i := 0; i < n; i++ {
 				r, err := old.Delete(bg, &proto.DeleteRequest{Key: []byte("/r/missing")})
 				if err != nil || r.Succeeded {
@@ -197,7 +201,13 @@ func c15Run(cfgIdx int, hist []int) *mc.SeqOut {
 		}
 		out.Evals++
 		if op.Hdr <= maxStored {
-			fail("new-revision-not-above-stored", "the new leader started at revision %d and handed out revision %d, but the store already holds revision %d (the old leader had handed out up to %d, starting from %d)", start, op.Hdr, maxStored, oldIssued, first)
+			sig := "new-revision-not-above-stored"
+			if failedWrites > 0 {
+				// the recorded Badger finding needs revisions consumed without a commit; without any the
+				// engine's commit counter cannot be behind the issued revisions
+				sig += "|after-failed-writes"
+			}
+			fail(sig, "the new leader started at revision %d and handed out revision %d, but the store already holds revision %d (the old leader had handed out up to %d, starting from %d)", start, op.Hdr, maxStored, oldIssued, first)
 			return out
 		}
 		m.apply(rCreate, op.Key, op.Val, op.Hdr)
